@@ -52,6 +52,7 @@ type RunConfig struct {
 	Profile  string      `json:"profile"`
 	InitialHeight int64  `json:"initial_height,omitempty"` // height of the first block (default 1)
 	SkipUpgradeHeights []int64 `json:"skip_upgrade_heights,omitempty"` // every node is started with --unsafe-skip-upgrades for these heights
+	EnvPerNode bool `json:"env_per_node,omitempty"` // every non-reference replica runs with its own HOME, USER, LANG, working directory and GOMAXPROCS
 	TZ string `json:"tz,omitempty"` // the process-local time zone (time.Local) while this run executes: results must not depend on it
 	LegacyVersionMap bool `json:"legacy_version_map,omitempty"` // the module version map also lists modules that earlier releases removed
 	// per-run knobs (swarm)
